@@ -36,12 +36,12 @@ Proof.
 Qed.
 
 (* ---------- _decode_dl: the resynchronisation scan (for ... else) ---------- *)
-Lemma src_decode_dl_for_eq : forall ops input cap b cnt e,
-  src_iconv_decode_dl_for ops input cap b cnt e =
+Lemma src_decode_dl_for_eq : forall ops input b cnt e,
+  src_iconv_decode_dl_for ops input b cnt e =
   of_dec (match scan_end input (Z.of_nat (length input)) cnt e with
           | Ok e' => Err (b, e') | Err x => Err x | Crash c => Crash c end).
 Proof.
-  intros ops input cap b cnt; induction cnt as [|cnt IH]; intros e; cbn [src_iconv_decode_dl_for scan_end].
+  intros ops input b cnt; induction cnt as [|cnt IH]; intros e; cbn [src_iconv_decode_dl_for scan_end].
   - reflexivity.
   - destruct (py_index input e) as [x|]; [|reflexivity].
     rewrite byte_lt_128. destruct (x <? 128)%N; [reflexivity|]. apply IH.
